@@ -531,6 +531,14 @@ func (ex *Exec) evalCall(e *Expr, env *Env) Val {
 				return ex.boolV(ts.Select(iv.Dom, k))
 			}
 			return ex.boolV(ts.Select(ex.st.cells[cell].(Scalar).T, k))
+		case "same":
+			// same(a, b): the two slices/strings are the same object range (base, offset, length), not merely equal contents
+			x, okx := ex.eval1(args[0], env).(SliceV)
+			y, oky := ex.eval1(args[1], env).(SliceV)
+			if !okx || !oky {
+				unsup("contract: same() needs slices or strings")
+			}
+			return ex.boolV(ts.And(ts.Eq(x.Base, y.Base), ts.Eq(x.Off, y.Off), ts.Eq(x.Len, y.Len)))
 		case "haskey":
 			// haskey(m, k): k is in the domain of map m
 			mv := ex.eval1(args[0], env)
